@@ -37,11 +37,14 @@ def is_d5(exp_src, f_act, shape):
     return False
 
 
-def search(skip_known=True, limit=None):
+def search(skip_known=True, limit=None, thorough=False):
     from pyanalyze.checker import Checker
     from pyanalyze.value import CanAssignError
     ctx = Checker()
     srcs = _sigs()
+    if thorough:
+        from replay.r_c05 import signatures
+        srcs = signatures(4)   # 180 signatures of up to four parameters
     funcs, sigs = [], []
     for i, s in enumerate(srcs):
         env = {}
@@ -186,7 +189,7 @@ _old_r_c07 = r_c07
 
 
 def r_c07(rec):
-    msg = search() or search_typed() or search_overrides()
+    msg = search(thorough=bool(rec and rec.get("tier") == "thorough")) or search_typed() or search_overrides()
     return (True, msg) if msg else (False, "accepted signature pairs preserve every call shape; variance holds on the typed pairs; overrides are flagged exactly when a call shape is lost")
 
 
